@@ -67,6 +67,12 @@ def gen_cases(ctx):
             nsk += 1
             iso = c12.isomers(skel)
             yield {"kind": "mol", "smiles": iso[rng.randrange(len(iso))], "eseed": rng.randrange(1, 100000), "relax": rng.random() < 0.4}
+        elif fam == 4 and (i // 8) % 3 == 1:
+            # bicyclic alkene whose double bond is the fusion bond of two rings of 4..11 atoms (one below, one above the
+            # "small ring => cis" threshold): the unlabelled ring double bond is cis in the small ring
+            skel = c12._fused_alkene(rng)
+            iso = c12.isomers(skel)
+            yield {"kind": "mol", "smiles": iso[rng.randrange(len(iso))], "eseed": rng.randrange(1, 100000), "relax": rng.random() < 0.5, "fused_alkene": True}
         elif fam == 4:
             skel = A2[(i // 8) % len(A2)]
             iso = c12.isomers(skel)
@@ -276,6 +282,11 @@ def _only_unlabelled_units_differ(m, a, b):
             else:
                 x, y = tuple(k2)
                 if m.GetBondBetweenAtoms(x, y).GetStereo() not in (Chem.BondStereo.STEREONONE, Chem.BondStereo.STEREOANY):
+                    return False
+                # a double bond in a ring of fewer than 8 atoms is not "left open" by RDKit: it is cis in that ring, the
+                # importer says so deliberately (ring rule) and the finding does not cover a wrong answer there
+                ri = m.GetRingInfo()
+                if any(x in r and y in r and len(r) < 8 for r in ri.AtomRings()):
                     return False
             n += 1
     return n > 0
